@@ -48,9 +48,10 @@ def inst_c01(cost, trace=False, warn=False):
 
 def inst_c04(cost):
     cfg = COMMON_CFG.format(trace="FALSE", warn="FALSE", cost=cost)
+    cfg = cfg.replace("VIEW StateView", "VIEW C04View")
     cfg += "CONSTANT Lines <- LinesDef\nCONSTANT Replies = {}\nCONSTANT Cost <- UnitCost\nCONSTANT StartStates <- EmptyStart\n"
     cfg += "".join(f"INVARIANT {i}\n" for i in ["LastWriterWins", "RefIntegrity", "ErrIdle", "Caps"])
-    return ("MC_C04", cfg, f"MC_C04 (8 line numbers x 5 bodies + LIST + RUN, all sequences of length <= {cost})")
+    return ("MC_C04", cfg, f"MC_C04 (8 line numbers x 7 bodies + LIST + RUN, all sequences of length <= {cost})")
 
 
 def inst_kernels(cost, trace=False, warn=False, lines="AllLines", kernels="Kernels"):
@@ -70,7 +71,7 @@ def plan(pid, tier):
         "C07": dict(mc=[inst_kernels(3 if q else 4, lines="BreakLines")], drivers=[("breakcont", 60 if q else 3000, []), ("stopassign", 120 if q else 4000, [])]),
         "C08": dict(mc=[inst_kernels(2 if q else 3, lines="BreakLines", kernels="InputKernels")],
                     drivers=[("inputassign", 150 if q else 6000, []), ("progs", 40 if q else 1500, ["input"])]),
-        "C09": dict(mc=[inst_kernels(1, trace=True, lines="RunOnly")], drivers=[("progs", 200 if q else 3000, ["trace", "input"])]),
+        "C09": dict(mc=[inst_kernels(1, trace=True, lines="RunOnly")], drivers=[("progs", 200 if q else 3000, ["trace", "input"]), ("progs", 120 if q else 2000, ["trace", "breaks"])]),
         "C10": dict(mc=[inst_c01(5 if q else 6)], drivers=[("runfresh", 120 if q else 6000, [])]),
         "C11": dict(mc=[inst_kernels(3 if q else 4, lines="EditLines")], drivers=[("editprobe", 150 if q else 6000, [])]),
         "C16": dict(mc=[inst_kernels(1, lines="RunOnly", kernels="CapKernels"), inst_c01(4 if q else 6)],
@@ -147,18 +148,18 @@ def run(pid, tier, seed):
                     violations.append(v)
 
     # ---------------- validate direction
-    for (driver, n, flags) in pl["drivers"]:
+    for di, (driver, n, flags) in enumerate(pl["drivers"]):
         shards = 12 if driver == "boundary" else (2 if n <= 60 else (8 if n <= 400 else 14))
         cmds, reports = [], []
         for k in range(shards):
-            tr = os.path.join(wd, f"{driver}_{k}.ndjson")
-            rp = os.path.join(wd, f"{driver}_{k}.report.json")
+            tr = os.path.join(wd, f"{driver}{di}_{k}.ndjson")
+            rp = os.path.join(wd, f"{driver}{di}_{k}.report.json")
             if driver == "boundary":       # a fixed catalogue, split over the shards
                 cmds.append((["sess-record", driver, str(k), str(shards), tr, rp], tr))
             else:
                 cmds.append((["sess-record", driver, str(seed * 100 + k), str(max(1, n // shards)), tr, rp, *flags], tr))
             reports.append(rp)
-        results = c.validate_traces("Trace_Session", cmds, wd, f"trace_{driver}", timeout=5400)
+        results = c.validate_traces("Trace_Session", cmds, wd, f"trace_{driver}{di}", timeout=5400)
         d = {"driver": driver, "flags": flags, "runs": n, "events": 0, "judged": 0, "verdicts": {}}
         for k, (events, vs, judged) in enumerate(results):
             rep = json.load(open(reports[k]))
